@@ -153,8 +153,8 @@ def dispatchPure (toks : List String) : Option String :=
     match Boot.mediaAndCount media (← cnt.toNat?) with
     | some (m, c) => pure s!"{m} {c}"
     | none => pure "invalidInput"
-  | ["calccc", size, heads, sectors] => do
-    let (cc, pad) := Hybrid.calcCc (← size.toNat?) (← heads.toNat?) (← sectors.toNat?)
+  | ["calccc", size, heads, sectors, efi] => do
+    let (cc, pad) := Hybrid.calcCc (← size.toNat?) (← heads.toNat?) (← sectors.toNat?) (efi = "1")
     pure s!"{cc} {pad}"
   | ["crc16", hx] => do let b ← ofHex hx; pure (toString (crc16 (b.map (·.toNat))))
   | ["crc32", hx] => do let b ← ofHex hx; pure (toString (crc32 (b.map (·.toNat))))
